@@ -85,6 +85,8 @@ def run(tier, seed):
     xp = tlc.run("Expand", defs=defs, invariants=EXPAND_INV, timeout=3000, env=R.JAVA_ENV)
     chk.add_tlc(xp, "Expand.tla: TermsShape, ExpandEqualsDense, PathsAgree")
     for res, name in ((w, "Unitaries"), (sw, "KronSweep"), (xp, "Expand")):
+        if res.violation == "InputsOK":          # the harness's own generated inputs are malformed: not a statement about QuCumber
+            raise common.MachineryError("generated inputs violate InputsOK of %s\n%s" % (name, res.raw[-1500:]))
         if res.violation:
             chk.violation("spec:%s:%s" % (name, res.violation), dict(tlc=res.raw[-4000:]))
     if chk.violations:
